@@ -69,6 +69,22 @@ func (fc *FuncCtx) evalIntrinsic(st *State, call *ast.CallExpr, fn *types.Func, 
 func (fc *FuncCtx) resolveAlias(st *State, e ast.Expr) ast.Expr {
 	for {
 		e = unparen(e)
+		// element of a literal slice at a known position (a counting loop over the literal is unrolled)
+		if ix, ok := e.(*ast.IndexExpr); ok {
+			if xid, ok := unparen(ix.X).(*ast.Ident); ok {
+				if elts := fc.litSlice(xid); elts != nil {
+					saved := fc.quiet
+					fc.quiet = true
+					k := fc.eval(st, ix.Index)
+					fc.quiet = saved
+					if n, err := strconv.Atoi(k.S); err == nil && n >= 0 && n < len(elts) {
+						e = elts[n]
+						continue
+					}
+				}
+			}
+			return e
+		}
 		id, ok := e.(*ast.Ident)
 		if !ok {
 			return e
